@@ -70,10 +70,12 @@ def oracle(rec, strict=True):
         if out['wall'] > 15 + 6.0 * CAL.get(sc['pool']['start_method'], 0.0):
             return f"{where}: KeyboardInterrupt only after {out['wall']:.1f}s", 'slow'
         part = out.get('partial', [])
-        exp = S.expected_value(call)
-        if call['kind'] == 'imap' and part != exp[:len(part)]:
+        exp = S.expected_value(call) if call.get('elem') != 'bigtuple' else []
+        if call.get('elem') == 'bigtuple':
+            pass
+        elif call['kind'] == 'imap' and part != exp[:len(part)]:
             return f"{where}: imap yielded wrong values before KeyboardInterrupt: {str(part)[:100]}", 'wrong_result'
-        if call['kind'] == 'imap_unordered' and any(S.key(v) not in {S.key(x) for x in exp} for v in part):
+        if call.get('elem') != 'bigtuple' and call['kind'] == 'imap_unordered' and any(S.key(v) not in {S.key(x) for x in exp} for v in part):
             return f"{where}: imap_unordered yielded wrong values before KeyboardInterrupt", 'wrong_result'
         # a kept-alive pool keeps its workers after a call by design: a SIGINT that arrives in the clean-up tail of a
         # call whose work is done finds them alive; for such pools only the state after leaving the pool is judged
